@@ -88,6 +88,7 @@ def run(chk, repo):
 
     from .common_rules import stateless_constructs
     chk.attempt(stateless_constructs, chk, repo, "C05-F8")
+    chk.attempt(reader_classes, chk, repo, L)
     from .common_rules import declared_multiplicities
     usable = declared_multiplicities(chk, L, "C05-F9", ("leader", "volume", "trailer"))
     if len(usable) < 3:
@@ -543,3 +544,47 @@ def _enumerate(chk, L):
     chk.obligations.append({"rule": "C05-ENUM", "where": "layout", "what": f"{cases} concrete (record, N, L) cases substituted; {len(bad)} failed", "holds": not bad})
     chk.extra["exhaustive"] = True
     chk.extra["enumerated_cases"] = cases
+
+
+def reader_classes(chk, repo, L):
+    """C05-F10: classes of the package that read their field from the stream themselves (derived from construct.Construct, own
+    ``_parse``): ``_parse`` is evaluated (the checker's interpreter) on model streams for every width class the layouts use -
+    width 0 (a length-dependent filler is empty for one admissible record length), width 1, a longer field - given as a number and
+    as a context function: it consumes exactly that many bytes and returns; a stream that ends inside a non-empty field raises"""
+    from collections import OrderedDict
+    from ..layout import reader_parse
+    from ..shapes import Const, Fn, Interp, NonTermination, ShapeError
+    chk.rule("C05-F10", "reader classes of the package consume exactly their declared width - zero included - and raise only when the stream ends inside the field", 0)
+    seen = {}
+    for key in ("leader", "volume", "signal", "processed", "image_descriptor", "trailer"):
+        for lf in L.by_name(key).values():
+            for a in lf.chain:
+                wp = (a.get("raw_attrs") or {}).get("__width_param__")
+                if wp is not None:
+                    plain = tuple(sorted((k, repr(v)) for k, v in (a.get("raw_attrs") or {}).items() if not k.startswith("__") and isinstance(v, (int, float, str, bool, bytes, type(None)))))
+                    seen.setdefault((a.get("clsmod"), a.get("cls"), wp, plain), (a, f"{key}:{lf.name}"))
+    for (modname, cname, wp, plain), (a, used_at) in sorted(seen.items(), key=lambda kv: kv[0][:3]):
+        mod, cls = repo.modules.get(modname), a.get("clsnode")
+        where = f"{mod.relpath}:{cname}._parse"
+        others = OrderedDict((k, Const(v)) for k, v in (a.get("raw_attrs") or {}).items() if not k.startswith("__") and isinstance(v, (int, float, str, bool, bytes, type(None))))
+        for k in (0, 1, 6):
+            for as_function in (False, True):
+                how = "given as a context function" if as_function else "given as a number"
+                kw = OrderedDict(others)
+                kw[wp] = Fn("py", impl=lambda I_, a_, kw_, k=k: Const(k), name="<context function>") if as_function else Const(k)
+                try:
+                    st, out, reads, consumed = reader_parse(Interp(repo), mod, cls, kw, b"A" * k + b"zz")
+                except (ShapeError, NonTermination, RecursionError) as e:
+                    raise AnalysisError(f"{where}: cannot be evaluated on a model stream (width {k} {how}): {str(e)[:120]}")
+                ok = st == "returned" and consumed == k
+                chk.require(ok, "C05-F10", where, f"a field of width {k} ({how}) followed by other data: returns after consuming {k} bytes",
+                            f"a field of width {k} ({how}; {cname} is used at {used_at}) in the middle of a record " + (f"raises {out.what[:70]}" if st == "raised" else f"consumes {consumed} bytes") +
+                            (": a length-dependent filler that is empty for one admissible record length makes the whole record undecodable" if k == 0 else ": the fields after it are read from the wrong bytes"),
+                            key=f"reader:{cname}:width-{'zero' if k == 0 else 'n'}")
+                if k:
+                    try:
+                        st, out, reads, consumed = reader_parse(Interp(repo), mod, cls, kw, b"A" * (k - 1))
+                    except (ShapeError, NonTermination, RecursionError) as e:
+                        raise AnalysisError(f"{where}: cannot be evaluated on a short model stream (width {k} {how}): {str(e)[:120]}")
+                    chk.require(st == "raised", "C05-F10", where, f"a field of width {k} ({how}) on a stream with {k - 1} bytes left raises",
+                                f"a field of width {k} ({how}) on a stream with only {k - 1} bytes left returns {out!r:.40} instead of raising: a truncated record is accepted", key=f"reader:{cname}:short")
